@@ -87,13 +87,15 @@ Definition ix_upd_stats (st : option istats) (c : chunk) (mapped : bool) : istat
   if mapped then mkStats (sbeg s) (send s) (smapped s + 1) (sunmapped s)
   else mkStats (sbeg s) (send s) (smapped s) (sunmapped s + 1).
 
-(** Error classes: 1 outside indexable range, 2 reference order, 3 position order. *)
+(** Error classes: 1 outside indexable range, 2 reference order, 3 position order,
+    4 placed record with a negative reference id. *)
 Definition ix_add (ix : index) (r : irec) : outcome index :=
   if negb (ix_valid_pos (q_start r)) || negb (ix_valid_pos (q_end r)) then Err 1 else
   let um := match iunm ix with Some u => u | None => 0 end in
   if negb (q_placed r) then Ok (mkIdx (irefs ix) (Some (um + 1)) (isorted ix) (ilast ix)) else
   let rid := q_rid r in
   let n := zlen (irefs ix) in
+  if rid <? 0 then Err 4 else
   if rid <? n - 1 then Err 2 else
   let grown := rid >=? n in
   let refs := if grown then ix_grow_refs (irefs ix) rid else irefs ix in
@@ -239,7 +241,7 @@ Fixpoint ix_comp_go (near : Z) (cur : chunk) (rest : list chunk) : list chunk :=
   match rest with
   | [] => [cur]
   | r :: t =>
-      if Z.shiftr (snd cur) 16 + near >=? Z.shiftr (fst r) 16
+      if Z.shiftr (fst r) 16 - Z.shiftr (snd cur) 16 <=? near
       then ix_comp_go near (fst cur, if snd cur >? snd r then snd cur else snd r) t
       else cur :: ix_comp_go near r t
   end.
